@@ -107,3 +107,73 @@ func Harness_C09_routing() {
 	}
 	verif_Cover("C09.done")
 }
+
+// What one node has once resolved must not outlive a change made through another node: after a
+// successful lookup on node B, node A removes the record (tunnel ended) or registers the id again
+// (new tunnel, other endpoints); B's next lookup - at any later instant, also the same one -
+// sees exactly what the shared store holds.
+func Harness_C09_cross_node_freshness() {
+	ctx := context.Background()
+	now := int64(1) << 60
+	verif_ClockSet(now)
+	mem := memory.New(ctx)
+	sts := []storage.Storage{mem, mem}
+	switch verif_Choose(3) {
+	case 1:
+		js := &c09JSONStore{mem}
+		sts = []storage.Storage{js, js}
+	case 2:
+		shared := &c09JSONStore{mem}
+		sts = []storage.Storage{
+			hybrid.NewWithSharedCache(ctx, memory.New(ctx), shared, nil, hybrid.DefaultConfig()),
+			hybrid.NewWithSharedCache(ctx, memory.New(ctx), shared, nil, hybrid.DefaultConfig()),
+		}
+	}
+	ttl := int64(verif_Byte()) + 1
+	a, b := NewRoutingTable(sts[0], time.Duration(ttl)), NewRoutingTable(sts[1], time.Duration(ttl))
+	id := "t0"
+	mk := func() *WaitingState {
+		return &WaitingState{TunnelID: id, MappingID: c09Str(false), SecretKey: c09Str(false), SourceNodeID: c09Str(false),
+			SourceClientID: verif_Int64(), TargetClientID: verif_Int64(), TargetHost: c09Str(false), TargetPort: int(verif_Uint16())}
+	}
+	same := func(got, want *WaitingState) bool {
+		return got.TunnelID == id && got.SourceClientID == want.SourceClientID && got.TargetClientID == want.TargetClientID && got.TargetPort == want.TargetPort &&
+			verif_StrEq(got.MappingID, want.MappingID) && verif_StrEq(got.SecretKey, want.SecretKey) && verif_StrEq(got.SourceNodeID, want.SourceNodeID) && verif_StrEq(got.TargetHost, want.TargetHost)
+	}
+	cur := mk()
+	verif_Assert("C09.fresh.setup.register", a.RegisterWaitingTunnel(ctx, cur) == nil)
+	exp := now + ttl
+	lookups := verif_IntRange(1, 2) // B resolves the id once or twice (a second read may come from a memo)
+	for i := 0; i < lookups; i++ {
+		got, err := b.LookupWaitingTunnel(ctx, id)
+		verif_Assert("C09.fresh.first_lookup", err == nil && got != nil && same(got, cur))
+	}
+	now += int64(verif_Byte())
+	verif_ClockSet(now)
+	verif_Assume(now != exp)
+	present := true
+	switch verif_Choose(3) {
+	case 0:
+		verif_Assert("C09.fresh.remove_ok", a.RemoveWaitingTunnel(ctx, id) == nil)
+		present = false
+		verif_Cover("C09.fresh.removed_elsewhere")
+	case 1:
+		cur = mk()
+		verif_Assert("C09.fresh.reregister_ok", a.RegisterWaitingTunnel(ctx, cur) == nil)
+		exp = now + ttl
+		verif_Cover("C09.fresh.reregistered_elsewhere")
+	}
+	now += int64(verif_Byte())
+	verif_ClockSet(now)
+	verif_Assume(now != exp)
+	for _, node := range []*RoutingTable{b, a} {
+		got, err := node.LookupWaitingTunnel(ctx, id)
+		if present && now < exp {
+			verif_Assert("C09.fresh.found", err == nil && got != nil)
+			verif_Assert("C09.fresh.current_record", same(got, cur))
+		} else {
+			verif_Assert("C09.fresh.gone", err != nil && got == nil)
+		}
+	}
+	verif_Cover("C09.fresh.done")
+}
